@@ -21,7 +21,7 @@
    _partial: (1) for conjugate gradient and L-BFGS 'SUCCESS is sound' and 'does not exceed the starting cost' need
    arithmetic the abstract scalar type does not have (Armijo condition; a zero direction component leaves a variable where
    it is) and are checked on every run of the harness, not proved; their feasibility theorems carry the assumption
-   SInvokeFree / its analogue for the line search entered without bounds; the unbounded L-BFGS driver is not modelled.  (2) "the call
+   SInvokeFree / its analogue for the line search entered without bounds; the unbounded drivers have the reported-cost and iteration theorems.  (2) "the call
    terminates": C18_outer_loop_terminates_partial bounds the outer loop; the inner loop ends when the damping, doubled
    from its restart value, passes its maximum, which is arithmetic the abstract scalar type does not have; the
    harness observes termination under an alarm. *)
@@ -183,7 +183,18 @@ Qed.
 Theorem C18_lbfgs_invalid_bounds_partial : forall (ofz : Z -> T) lo hi fuel ls k x m1 inf, valid_bounds O lo hi x = false ->
   let r := lbfgs_bounded O cost grad norm2 osqrt isfinite ofz fuel ls k lo hi x m1 inf in r_status r = MInvalidBounds /\ r_log r = [] /\ r_x r = x.
 Proof. exact (fun ofz => lbfgs_bounded_invalid O cost grad norm2 osqrt isfinite ofz). Qed.
+(* the unbounded conjugate-gradient and L-BFGS drivers: reported cost and iteration count *)
+Theorem C18_conjugate_gradient_unbounded_partial : forall fuel s k fr x m1 inf,
+  let r := cg_unbounded O cost grad norm2 osqrt isfinite fuel s k fr x m1 inf in
+  (r_status r <> MOutOfFuel -> r_cost r = cost (r_x r)) /\ (0 < g_max_it s -> 0 <= r_iter r <= g_max_it s).
+Proof. exact (cg_unbounded_spec O cost grad norm2 osqrt isfinite le_total lt_le). Qed.
+Theorem C18_lbfgs_unbounded_partial : forall (ofz : Z -> T) fuel ls k x m1 inf,
+  let r := lbfgs_unbounded O cost grad norm2 osqrt isfinite ofz fuel ls k x m1 inf in
+  (r_status r <> MOutOfFuel -> r_cost r = cost (r_x r)) /\ (0 < g_max_it (lb_cg ls) -> 0 <= r_iter r <= g_max_it (lb_cg ls)).
+Proof. exact (fun ofz => lbfgs_unbounded_spec O cost grad norm2 osqrt isfinite ofz le_total lt_le). Qed.
 End ConjugateGradient.
+Print Assumptions C18_conjugate_gradient_unbounded_partial.
+Print Assumptions C18_lbfgs_unbounded_partial.
 Print Assumptions C18_lbfgs_partial.
 Print Assumptions C18_lbfgs_invalid_bounds_partial.
 Print Assumptions C18_line_search_partial.
